@@ -1,6 +1,8 @@
 import CkbVerif.Driver.Util
 import CkbVerif.Model.Window
 import CkbVerif.Model.WindowConsumers
+import CkbVerif.Model.WindowPool
+import CkbVerif.Model.WindowBlocks
 
 /-! Line-protocol driver for C20 (protocol: see harness/hcore/src/c20.rs for the table stream and
 harness/hnode/src/c20.rs for the node-level streams node / edge / fork / pool). -/
@@ -10,6 +12,14 @@ open CkbVerif.Driver CkbVerif.Window
 structure St where
   w : Win := defaultWin
   node : Node := { chain := [[]], table := [], view := {} }
+  /-- pool family: ids committed per main-chain block, the pool's entries, the commitments announced
+  for the first block of the next `nswitchm` (`ncommit`) -/
+  commits : List Ids := [[]]
+  /-- node-level streams: the stored main chain as blocks (own proposals + embedded uncles'), read by
+  the start-up reconstruction and by the commit verifier through their own gathering loops -/
+  blocks : List Blk := [{}]
+  pool : PoolSt := []
+  pend : Ids := []
 
 def canon (l : List Nat) : List Nat :=
   (l.mergeSort (fun a b => decide (a ≤ b))).eraseDups
@@ -28,6 +38,29 @@ def viewLine (removed : Option Ids) (n : Node) : String :=
 
 def nodeLine (n : Node) : String :=
   s!"set={showIds n.view.set} gap={showIds n.view.gap}"
+
+/-- a block token of the node-level lines: `<own ids>` or `<own ids>+<uncle ids>[+<uncle ids>…]` -/
+def parseBlk? (tok : String) : Option Blk :=
+  match (tok.splitOn "+").mapM parseNatList? with
+  | some (own :: uncles) => some { own := own, uncles := uncles }
+  | _ => none
+
+def showStages (p : PoolSt) : String :=
+  let es := p.mergeSort (fun a b => decide (a.1 ≤ b.1))
+  if es.isEmpty then "-" else ",".intercalate (es.map fun e => s!"{e.1}:{e.2.label}")
+
+/-- a main-chain change with the pool notified (`Window.pswitch`): the first attached block commits
+`s.pend`, the others nothing; returns the new state and `detached_proposal_id` -/
+def pswitchSt (s : St) (c : Nat) (bl : List Blk) : St × Ids :=
+  -- rows of attached blocks come from `union_proposal_ids` (`Window.switchB`)
+  let bs := bl.map Blk.unionIds
+  let r := switchB s.w s.node c bl
+  let bcommits : List Ids := match bs with
+    | [] => []
+    | _ :: rest => s.pend :: rest.map (fun _ => [])
+  let ps := pswitch s.w { node := s.node, commits := s.commits, pool := s.pool } c bs bcommits
+  ({ s with node := ps.node, commits := ps.commits, pool := ps.pool, pend := [],
+            blocks := s.blocks.take (c + 1) ++ bl }, r.2)
 
 def step (s : St) (ts : List String) : St × String :=
   match ts with
@@ -80,41 +113,54 @@ def step (s : St) (ts : List String) : St × String :=
   -- node-level stream: the table is private to the chain service, only the snapshot's view is visible
   | ["nboot"] =>
     let node := init s.w [[]]
-    ({ s with node := node }, nodeLine node)
+    ({ w := s.w, node := node }, nodeLine node)
   | "nswitch" :: common :: branch =>
-    match parseNat? common, branch.mapM parseNatList? with
+    match parseNat? common, branch.mapM parseBlk? with
     | some c, some bs =>
       if c < s.node.chain.length then
-        let r := switch s.w s.node c bs
-        ({ s with node := r.1 }, nodeLine r.1)
+        let r := pswitchSt s c bs
+        (r.1, nodeLine r.1.node)
       else (s, "bad-op")
     | _, _ => (s, "bad-op")
   | ["nrestart"] =>
-    let node := init s.w s.node.chain
+    -- `init_proposal_table` gathers every stored block's ids itself (`Window.initB`)
+    let node := initB s.w s.blocks
     ({ s with node := node }, nodeLine node)
   -- pool consumers of the view (node stream, family `pool`)
   | ["status", id] =>
     match parseNat? id with
-    | some x => (s, (txStatus s.node.view x).label)
+    | some x =>
+      -- a submission: filed by get_tx_status on the current view (`Window.psubmit`)
+      ({ s with pool := poolSubmit s.node.view s.pool x }, (txStatus s.node.view x).label)
     | none => (s, "bad-op")
   | "nswitchm" :: watch :: common :: branch =>
-    match parseNatList? watch, parseNat? common, branch.mapM parseNatList? with
+    match parseNatList? watch, parseNat? common, branch.mapM parseBlk? with
     | some wl, some c, some bs =>
       if c < s.node.chain.length then
-        let r := switch s.w s.node c bs
+        let r := pswitchSt s c bs
         -- detached_proposal_id restricted to the watched (pooled, Proposed) ids
         let moved := wl.filter (fun x => r.2.contains x)
-        ({ s with node := r.1 }, s!"moved={showIds moved} {nodeLine r.1}")
+        (r.1, s!"moved={showIds moved} {nodeLine r.1.node}")
       else (s, "bad-op")
     | _, _, _ => (s, "bad-op")
-  | ["ncommit", _] => (s, "ok")
+  | ["ncommit", ids] =>
+    match parseNatList? ids with
+    | some ids => ({ s with pend := ids }, "ok")
+    | none => (s, "bad-op")
+  -- the whole pool after `update_tx_pool_for_reorg` / a submission: every entry with its stage
+  | ["pstages"] => (s, showStages s.pool)
+  -- family `heavy`: consensus parameters and slow-timestamp marks, recorded for the replay only
+  | ["nuneven", _, _, _] => (s, "ok")
+  | ["nslow"] => (s, "ok")
   | ["pool", ids] =>
     match parseNatList? ids with
     | some ids => (s, s!"proposed={showIds (ids.filter fun x => txStatus s.node.view x == .proposed)}")
     | none => (s, "bad-op")
   | ["verify", ids] =>
     match parseNatList? ids with
-    | some ids => (s, if commitOk s.w s.node.chain s.node.chain.length ids then "ok" else "invalid")
+    | some ids =>
+      -- the commit verifier gathers the stored blocks' ids itself (`Window.commitOkB`)
+      (s, if commitOkB s.w s.blocks s.blocks.length ids then "ok" else "invalid")
     | none => (s, "bad-op")
   | _ => (s, "bad-op")
 
